@@ -66,7 +66,7 @@ def toListPlain : PlainOp Val Val := pToList Val.lst
 def count (r : Bool) : Stage := scan (fun acc _ => Val.add acc (.int 1)) (.int 0) r none
 
 def sum (key : F1) (r : Bool) : Stage :=
-  scan (fun acc i => do let k ← key i; Val.add acc k) (Val.flt 0.0) r none
+  scan (fun acc i => do let k ← key i; Val.add acc k) (Val.flt (Float.ofInt 0 / Float.ofNat 1)) r none
 
 def mean (key : F1) (r : Bool) : Pipe :=
   .ofList [
@@ -75,7 +75,7 @@ def mean (key : F1) (r : Bool) : Pipe :=
       let a ← Val.add (acc.nth 0) k
       let c ← Val.add (acc.nth 1) (.int 1)
       pure (Val.tup [a, c])) (Val.tup [.int 0, .int 0]) r none,
-    map (fun acc => Val.div (acc.nth 0) (acc.nth 1))]
+    map (fun acc => if acc = .none then pure .none else Val.div (acc.nth 0) (acc.nth 1))]
 
 def minmax (isMax : Bool) (key : F1) (r : Bool) : Stage :=
   scan (fun acc i => do
@@ -87,25 +87,38 @@ def minmax (isMax : Bool) (key : F1) (r : Bool) : Stage :=
 
 instance : NatCast Float := ⟨Float.ofNat⟩
 
-/-- the Welford state kept in the scan's tuple `(m, s, k)` (`m = None` before the first item) -/
-def wstOfVal (acc : Val) : Option (WSt Float) :=
-  match (acc.nth 0).toFloat?, (acc.nth 1).toFloat?, (acc.nth 2) with
-  | some m, some s, .int k => some ⟨m, s, k.toNat⟩
-  | _, _, _ => none
+/-- a float literal given as an exact fraction (`0.0` is `flit 0 1`) -/
+def flit (n : Int) (d : Nat) : Val := Val.flt (Float.ofInt n / Float.ofNat d)
 
-def wstToVal (st : WSt Float) : Val := Val.tup [Val.flt st.m, Val.flt st.s, .int st.k]
-
-/-- rxsci/math/variance.py: Welford accumulator `(m, s, k)`, computed by the generic `wstep` at Float -/
+/-- rxsci/math/variance.py `accumulate`: Welford's update on the tuple `(m, s, k)` (`m = None` before the
+first item), statement by statement in Python's dynamic arithmetic (an int item stays an int until the
+first true division) -/
 def welford (key : F1) : F2 := fun acc i => do
+  let k ← Val.add (acc.nth 2) (.int 1)
   let x ← key i
-  match x.toFloat? with
-  | none => .error "TypeError"
-  | some xf => pure (wstToVal (wstep (wstOfVal acc) xf))
+  if acc.nth 0 = .none then pure (Val.tup [x, acc.nth 1, k])
+  else
+    let d ← Val.sub x (acc.nth 0)
+    let q ← Val.div d k
+    let m ← Val.add (acc.nth 0) q
+    let d1 ← Val.sub x (acc.nth 0)
+    let d2 ← Val.sub x m
+    let p ← Val.mul d1 d2
+    let s ← Val.add (acc.nth 1) p
+    pure (Val.tup [m, s, k])
+
+/-- the map after the scan: `0.0 if acc[2] < 2 else acc[1] / (acc[2]-1)` -/
+def welfordResult : F1 := fun acc => do
+  let b ← Val.lt (acc.nth 2) (.int 2)
+  if b then pure (flit 0 1)
+  else
+    let d ← Val.sub (acc.nth 2) (.int 1)
+    Val.div (acc.nth 1) d
 
 def variance (key : F1) (r : Bool) : Pipe :=
   .ofList [
     scan (welford key) (Val.tup [.none, .int 0, .int 0]) r none,
-    map (fun acc => pure (Val.flt (wvar (wstOfVal acc))))]
+    map welfordResult]
 
 def sqrtMap : Stage := map (fun v => if v = .none then pure .none else Val.sqrt v)
 
@@ -144,11 +157,13 @@ def pySumI (xs : List Val) (acc : Int) : Except Err Val :=
 
 def pySum (xs : List Val) : Except Err Val := pySumI xs 0
 
-/-- rxsci/math/formal/__init__.py `_moment`: `sum(m) / len(x)` -/
+/-- rxsci/math/formal/__init__.py `_moment`: `sum(m) / len(x) if len(x) > 0 else None` -/
 def moment (xs : List Val) (c : Val) (n : Nat) : Except Err Val := do
   let ms ← xs.mapM (fun x => do let d ← Val.sub x c; powV d n)
-  let s ← pySum ms
-  Val.div s (.int xs.length)
+  if 0 < xs.length then
+    let s ← pySum ms
+    Val.div s (.int xs.length)
+  else pure .none
 
 /-- rxsci/math/formal/variance.py (repaired: the state list is no longer cleared by the map) -/
 def fvariance (key : F1) (r : Bool) : Pipe :=
@@ -160,7 +175,7 @@ def fvariance (key : F1) (r : Bool) : Pipe :=
       | _ => .error "AttributeError") (Val.lst []) r none,
     map (fun acc => do
       let xs := (acc.elems).getD []
-      if xs.length = 0 then pure (Val.flt 0.0)
+      if xs.length = 0 then pure (flit 0 1)
       else
         let m ← moment xs (.int 0) 1
         moment xs m 2)]
